@@ -4,6 +4,7 @@ CONSTANTS
   MaxCalls = 4
   MaxBlocks = 16
   ApiLevel = FALSE
+  Structured = FALSE
   DevUndefinedGoto = TRUE
   DevDuplicateLabel = TRUE
   EmitCases = TRUE
